@@ -90,7 +90,7 @@ def main ():
       replay_cmd_template = "./check %s --replay {path}" % pid,
       engine = "mc",
       level_claimed = dict(category=cat, text=text, design_ref=ref),
-      level_note = note,
+      level_note = note + "  The alphabet and oracle extensions added in the strengthening rounds (waves 1-9 of seeded changes) are tabulated per property in DESIGN.md 9.2b; the counts each tier actually covered are in the evidence file.",
       technique = tech,
     ))
   na = [dict(property_id=p, reason=NOT_APPLICABLE.get(p, PENDING_REASON)) for p in props if p not in CHECKS]
